@@ -223,6 +223,11 @@ pub fn like_stream(ctx: &mut Ctx) {
 	like_case!(ctx; Mixed, &'static Mixed => Box<Mixed>, false, |o| o);
 	like_case!(ctx; Named, Named => Arc<Named>, false, |o| o.clone());
 	like_case!(ctx; Transparent, &'static Transparent => Box<Transparent>, false, |o| o);
+	// elements that are zero-sized in memory but not on the wire, in arrays and behind holders
+	like_case!(ctx; [crate::derived::Marker; 3], [Box<crate::derived::Marker>; 3] => [crate::derived::Marker; 3], false, |o| core::array::from_fn(|i| Box::new(o[i])));
+	like_case!(ctx; ([crate::derived::Marker; 2], u8), ([&'static crate::derived::Marker; 2], &'static u8) => ([crate::derived::Marker; 2], u8), false, |o| ([&o.0[0], &o.0[1]], &o.1));
+	like_case!(ctx; Vec<crate::derived::Marker>, &'static [crate::derived::Marker] => Vec<Box<crate::derived::Marker>>, false, |o| &o[..]);
+	like_case!(ctx; [crate::derived::Marker; 2], [crate::derived::Marker; 2] => Box<[crate::derived::Marker; 2]>, false, |o| *o);
 	// many elements decoded as shared holders (in place, one after the other)
 	like_case!(ctx; [u32; 40], [u32; 40] => [Rc<u32>; 40], false, |o| *o);
 	like_case!(ctx; [u16; 33], [&'static u16; 33] => [Arc<u16>; 33], false, |o| core::array::from_fn(|i| &o[i]));
